@@ -53,6 +53,14 @@ func runC10Case(seed int64, idx int) *c10Result {
 	segSamples := 4 + rng.Intn(3)
 	frags := 1 + rng.Intn(3)
 	feats := map[string]bool{}
+	if container == "fmp4" && (uint64(seed)*13+uint64(idx)*7)%8 == 0 {
+		// CMAF-chunked segments: many moof/mdat pairs per segment file (what low-latency packagers
+		// and gohlslib's own Low-Latency muxer produce), one or two samples each
+		segSamples = 16 + (idx%3)*6
+		frags = 12 + idx%9
+		nSeg = 4 + idx%3
+		feats["many-fragments"] = true
+	}
 
 	// common start instant
 	var t0 int64 // seconds
@@ -314,10 +322,16 @@ func runC10Case(seed int64, idx int) *c10Result {
 		fail("harness", "start: %v", err)
 		return res
 	}
-	if !run.WaitResult(40 * time.Second) {
+	ended, wedged, census := run.WaitEndOrWedge(func() int { return srv.Count() + run.Delivered() }, 100, 60*time.Second)
+	if !ended {
 		run.C.Close()
 		run.WaitResult(5 * time.Second)
-		res.obs["inconclusive_no_end"]++
+		res.desc = map[string]any{"seed": seed, "index": idx, "container": container, "features": fmt.Sprint(feats), "segments": nSeg, "vod": vod, "fragments_per_segment": frags}
+		if wedged {
+			fail("wedged/"+container, "a well-formed finite stream (%d fragments per segment): the client neither ended nor moved for 10 s and all its goroutines are parked: %s (requests %d, units delivered %d)", frags, strings.Join(census, " | "), srv.Count(), run.Delivered())
+		} else {
+			res.obs["inconclusive_no_end"]++
+		}
 		return res
 	}
 	if !errors.Is(run.WaitErr, gohlslib.ErrClientEOS) {
